@@ -62,7 +62,9 @@ static std::string eval(const std::vector<std::string> &line) {
     fb_t FB(ref, absval_fac);
     typename fb_t::assumption_map_t assumptions;
     crab::analyzer::fwd_bwd_parameters fbp;
-    fbp.enable_backward();
+    fbp.enable_backward() = true;
+    fbp.get_use_refined_invariants() = (P.opt("refined", "0") == "1");
+    fbp.get_max_refine_iterations() = (unsigned)std::stoul(P.opt("maxref", "5"));
     FB.run(dom_t(), assumptions, nullptr, params, fbp);
     typedef crab::checker::intra_checker<fb_t> checker_t;
     typedef crab::checker::assert_property_checker<fb_t> assert_checker_t;
